@@ -139,7 +139,7 @@ class C17(Prop):
     id = "C17"
     title = "tree navigation and the TDVP sweep order"
     design_ref = "DESIGN.md section 5 / C17"
-    rule = ("struct cases: every rooted ordered tree up to the node bound (7 quick / 9 thorough, sampled above 8), built "
+    rule = ("struct cases: every rooted ordered tree up to the node bound (7 quick / 9 thorough), built "
             "as a bare TreeStructure, all node pairs, all centres; random cases: shaped random trees up to 40 nodes with "
             "random identifiers and random attach order (children order and node-dict order), sampled pairs/centres; "
             "real cases: TTNS+TTNO with the real SandwichCache.init_cache_but_one contraction; malformed: unknown "
@@ -192,8 +192,8 @@ class C17(Prop):
             nmax = 8
         for n in range(1, nmax + 1):
             allp = util.all_parents(n)
-            if n >= 9 or (stream != "main" and n >= 8):
-                allp = rng.sample(allp, min(len(allp), 500 if stream == "main" else 150 * budget_scale))
+            if stream != "main" and n >= 8:
+                allp = rng.sample(allp, min(len(allp), 150 * budget_scale))
             for par in allp:
                 # a third of the exhaustive trees get random identifiers
                 cases.append(self._struct_case(par, rng, relabel=(rng.random() < 0.34)))
